@@ -256,6 +256,30 @@ def un(name, p):
                 r = _exact_sqrt(lead)
                 if r is not None:
                     return opaque("sqrt", p.scale(Fraction(1) / lead)).scale(r)
+    if name in ("sin", "cos", "tan"):
+        # exact compositions with inverse trigonometric functions (principal values)
+        ia = p.single_atom()
+        if ia is not None:
+            u = ia.key[0] if ia.key and isinstance(ia.key[0], Poly) else None
+            if ia.kind == "asin":
+                if name == "sin":
+                    return u
+                if name == "cos":
+                    return un("sqrt", ONE - u * u)
+            elif ia.kind == "acos":
+                if name == "cos":
+                    return u
+                if name == "sin":
+                    return un("sqrt", ONE - u * u)
+            elif ia.kind == "atan":
+                if name == "tan":
+                    return u
+                h = un("sqrt", ONE + u * u)
+                return pdiv(u, h) if name == "sin" else pdiv(ONE, h) if name == "cos" else u
+            elif ia.kind == "atan2" and name in ("sin", "cos"):
+                y, x = ia.key
+                h = un("sqrt", x * x + y * y)
+                return pdiv(y, h) if name == "sin" else pdiv(x, h)
     if name in ("sin", "cos"):
         # shift identities: strip k*pi/2 from the argument (exact)
         pia = PI_POLY.single_atom()
@@ -272,9 +296,9 @@ def un(name, p):
         # acos(-u) = pi - acos(u)
         return PI_POLY - opaque("acos", -p)
     if name in ODD and _lead_negative(p):
-        return -opaque(name, -p)
+        return -un(name, -p)
     if name in EVEN and _lead_negative(p):
-        return opaque(name, -p)
+        return un(name, -p)
     if name == "fabs":
         a = p.single_atom()
         if a is not None and a.kind in ("fabs", "sqrt"):
